@@ -26,6 +26,7 @@ func dataEnv(env *Env) {
 	add("q4", &T4{N: 10})
 	add("v4", T4{N: 5}) // a value: the pointer-receiver methods are not in its method set
 	add("t2b", T2{X: 77})
+	add("nilv", nil)
 	big := make([]any, 2, 5)
 	big[0], big[1] = int64(100), int64(200)
 	add("big", big)
